@@ -174,9 +174,11 @@ def run_unit(name, factory, canaries=True, rlimit=None):
     fids = set(f['id'] for f in g.functions if f['has_body'] and not f['external_body'])
     for round_ in range(3):
         bad = set(i['fn'] for i in cl['infra'] if i.get('fn') in fids and 'esource limit' not in i['message'] and 'rlimit' not in i['message'])
+        again = bad & demoted          # still rejected after the body was dropped: the contract text itself does not fit
         bad -= demoted
-        if not bad:
+        if not bad and not again:
             break
+        X.NOCONTRACT.update(again)
         demoted |= bad
         X.DEMOTED.update(bad)
         try:
